@@ -440,6 +440,40 @@ def all_or_none(prog, res, E):
     res.need("T4.param-api", 8)
 
 
+def temporary_overrides_restored(prog, res):
+    """T3 (save / override / restore bracket): a function that saves a requested parameter in a local, overrides it and
+    writes the local back must write it back on EVERY exit that follows the override — an early error return between
+    override and restore leaves the caller's sticky parameter changed by a call that failed ("a rejected call changes
+    nothing").  Brackets are discovered from the code: field F of requestedParams with `L = ...F` , `F = <other>` , `F = L`."""
+    R = "T3.override-is-restored"
+    n = 0
+    for f in prog.fns_in("compress/zstd_compress.c"):
+        asg = [(b, i, x) for b, i, x in f.events(lambda y: y.get("k") == "asg" and y.get("op") == "=")
+               if strip_casts(x["lhs"]).get("k") == "mem" and any(y.get("f") == "requestedParams" for y in walk(x["lhs"]))]
+        byfield = {}
+        for b, i, x in asg:
+            byfield.setdefault(strip_casts(x["lhs"])["f"], []).append((b, i, x))
+        for fld, lst in byfield.items():
+            restores, overrides = [], []
+            for b, i, x in lst:
+                r = strip_casts(f.resolve_x(x["rhs"]))
+                if r is not None and r.get("k") == "ref" and r.get("rk") in ("l", "sl"):
+                    d = f.single_def(r["n"])
+                    if d is not None and any(y.get("k") == "mem" and y.get("f") == fld for y in f.walk_resolved(d)):
+                        restores.append((b, i))
+                        continue
+                overrides.append((b, i))
+            if not restores or not overrides:
+                continue
+            n += 1
+            rets = [(b, i) for b, i, r in f.returns()]
+            ok = f.must_pass(via_roots=restores, starts=[(b, i + 1) for b, i in overrides], targets=rets)
+            res.check(ok, R, "%s:%s" % (f.name, fld), f.loc, "every return after the override of requestedParams.%s passes its restore" % fld,
+                      "%s overrides requestedParams.%s and can return (e.g. on an error of the call in between) before writing the saved value back: a "
+                      "failed call leaves the sticky parameter changed" % (f.name, fld))
+    res.need(R, 2)
+
+
 def run(tier):
     res = Result("C16", tier)
     tus, info = extract(["compress", "decompress"])
@@ -491,6 +525,7 @@ def run(tier):
     _inv = [e for e in _json.load(open(_os.path.join(_os.path.dirname(_os.path.abspath(__file__)), "inv", "compress_all.json"))) if set(e["codes"]) & {'parameter_outOfBound', 'stage_wrong', 'parameter_unsupported', 'parameter_combination_unsupported', 'stabilityCondition_notRespected'}]
     _guards.check_inventory(prog, res, 'T8.frozen-guards(parameter,stage)', _inv)
     res.need('T8.frozen-guards(parameter,stage)', 50)
+    temporary_overrides_restored(prog, res)
     return res.finish(
         explanation="The parameter table decided cell by cell from the AST/CFG: every ZSTD_cParameter/ZSTD_dParameter "
                     "value has a case in bounds/set/get (and isUpdateAuthorized); every store of a setter case is "
